@@ -1,3 +1,242 @@
+//! C10 (header corruption) and C11 (truncation).
+
 use super::*;
-pub fn c10(_ctx: &Ctx, _subj: &dyn DynSubject, _ty: &Ty, _rep: &mut Report) {}
-pub fn c11(_ctx: &Ctx, _subj: &dyn DynSubject, _ty: &Ty, _rep: &mut Report) {}
+use crate::faults::Placed;
+use crate::Loader;
+use vmodel::format::FIXED_HEADER;
+use vmodel::val::GenCfg;
+
+const MAGIC: u64 = u64::from_ne_bytes(*b"epserde ");
+
+enum Expect {
+    Magic(u64),
+    Endianness,
+    Major(u16),
+    Minor(u16),
+    Usize(usize),
+    TypeHash { ser: u64, own: u64 },
+    AlignHash { ser: u64, own: u64 },
+    OkSame,
+}
+
+fn matches_expect(r: &deser::Result<Val>, x: &Expect, v: &Val, names: (&str, &str)) -> Result<(), String> {
+    use deser::Error as E;
+    match (r, x) {
+        (Ok(got), Expect::OkSame) => {
+            if got == v {
+                Ok(())
+            } else {
+                Err(format!("accepted with a different value {}", got.show()))
+            }
+        }
+        (Ok(got), _) => Err(format!("a value was returned: {}", got.show())),
+        (Err(E::MagicCookieError(m)), Expect::Magic(e)) if m == e => Ok(()),
+        (Err(E::EndiannessError), Expect::Endianness) => Ok(()),
+        (Err(E::MajorVersionMismatch(m)), Expect::Major(e)) if m == e => Ok(()),
+        (Err(E::MinorVersionMismatch(m)), Expect::Minor(e)) if m == e => Ok(()),
+        (Err(E::UsizeSizeMismatch(m)), Expect::Usize(e)) if m == e => Ok(()),
+        (Err(E::WrongTypeHash { ser_type_name, ser_type_hash, self_type_name, self_type_hash }), Expect::TypeHash { ser, own }) => {
+            if ser_type_hash == ser && self_type_hash == own && ser_type_name == names.0 && self_type_name == names.1 {
+                Ok(())
+            } else {
+                Err(format!("WrongTypeHash payload is ({:x},{:x},{:?},{:?}), expected ({:x},{:x},{:?},{:?})", ser_type_hash, self_type_hash, ser_type_name, self_type_name, ser, own, names.0, names.1))
+            }
+        }
+        (Err(E::WrongAlignHash { ser_type_name, ser_align_hash, self_type_name, self_align_hash }), Expect::AlignHash { ser, own }) => {
+            if ser_align_hash == ser && self_align_hash == own && ser_type_name == names.0 && self_type_name == names.1 {
+                Ok(())
+            } else {
+                Err(format!("WrongAlignHash payload is ({:x},{:x},{:?},{:?}), expected ({:x},{:x},{:?},{:?})", ser_align_hash, self_align_hash, ser_type_name, self_type_name, ser, own, names.0, names.1))
+            }
+        }
+        (Err(e), _) => Err(format!("wrong error {:?}", e)),
+    }
+}
+
+fn expect_name(x: &Expect) -> &'static str {
+    match x {
+        Expect::Magic(_) => "MagicCookieError",
+        Expect::Endianness => "EndiannessError",
+        Expect::Major(_) => "MajorVersionMismatch",
+        Expect::Minor(_) => "MinorVersionMismatch",
+        Expect::Usize(_) => "UsizeSizeMismatch",
+        Expect::TypeHash { .. } => "WrongTypeHash",
+        Expect::AlignHash { .. } => "WrongAlignHash",
+        Expect::OkSame => "Ok(same value)",
+    }
+}
+
+fn expectation(orig: &[u8], m: &[u8]) -> Expect {
+    let u64at = |b: &[u8], o: usize| u64::from_ne_bytes(b[o..o + 8].try_into().unwrap());
+    let u16at = |b: &[u8], o: usize| u16::from_ne_bytes(b[o..o + 2].try_into().unwrap());
+    let magic = u64at(m, 0);
+    if magic != MAGIC {
+        return if magic == MAGIC.swap_bytes() { Expect::Endianness } else { Expect::Magic(magic) };
+    }
+    if u16at(m, 8) != 1 {
+        return Expect::Major(u16at(m, 8));
+    }
+    if u16at(m, 10) > 1 {
+        return Expect::Minor(u16at(m, 10));
+    }
+    if m[12] as usize != core::mem::size_of::<usize>() {
+        return Expect::Usize(m[12] as usize);
+    }
+    if u64at(m, 13) != u64at(orig, 13) {
+        return Expect::TypeHash { ser: u64at(m, 13), own: u64at(orig, 13) };
+    }
+    if u64at(m, 21) != u64at(orig, 21) {
+        return Expect::AlignHash { ser: u64at(m, 21), own: u64at(orig, 21) };
+    }
+    Expect::OkSame
+}
+
+pub fn c10(ctx: &Ctx, subj: &dyn DynSubject, ty: &Ty, rep: &mut Report) {
+    let strat = with_entropy(strategy_for(ctx, ty, GenCfg { max_len: 5, long: false }), 32);
+    let tname = subj.std_type_name();
+    crate::runner::run_cases(ctx, subj, rep, strat, ctx.cases, &|case, log| {
+        let (v, ent) = split_entropy(case);
+        let mut ent = Ent::new(ent);
+        self_check(subj, v)?;
+        let (bytes, _) = ser_bytes(subj, v)?;
+        log.sample = Some(sample_json(subj, v, Some(&bytes), json!({"mutations": "232 bit flips + reversed cookie + minor classes"})));
+        log.nontrivial = true;
+        // mutations: (description, mutated header)
+        let mut muts: Vec<(String, Vec<u8>)> = vec![];
+        for bit in 0..FIXED_HEADER * 8 {
+            let mut m = bytes[..FIXED_HEADER].to_vec();
+            m[bit / 8] ^= 1 << (bit % 8);
+            muts.push((format!("flip bit {} of byte {}", bit % 8, bit / 8), m));
+        }
+        let mut rev = bytes[..FIXED_HEADER].to_vec();
+        rev[..8].reverse();
+        muts.push(("byte-reversed cookie".into(), rev));
+        let mut minors: Vec<u16> = vec![0, 1, 2, 3, 255, 256, 0x7fff, 0x8000, 0xffff];
+        for _ in 0..8 {
+            minors.push(ent.u64() as u16);
+        }
+        for mv in minors {
+            let mut m = bytes[..FIXED_HEADER].to_vec();
+            m[10..12].copy_from_slice(&mv.to_ne_bytes());
+            muts.push((format!("minor version {}", mv), m));
+        }
+        for (n, (what, head)) in muts.iter().enumerate() {
+            let mut mutated = bytes.clone();
+            mutated[..FIXED_HEADER].copy_from_slice(head);
+            let x = expectation(&bytes, &mutated);
+            log.classes.push(format!("expect-{}", expect_name(&x)));
+            log.extra_evals += 2;
+            log.extra_nontrivial.push(hash_sub(subj.name(), v, "c10", n as u64, 0));
+            let names = (tname, tname);
+            // full copy
+            let r = guard(|| subj.full(&mut std::io::Cursor::new(&mutated[..])));
+            let verdict = match &r {
+                Err(p) => Err(format!("panicked: {}", p)),
+                Ok(r) => matches_expect(r, &x, v, names),
+            };
+            if let Err(e) = verdict {
+                return Err(Fail::new(&format!("header-full:{}", expect_name(&x)), format!("{} -> expected {} from deserialize_full, but {}", what, expect_name(&x), e)).env(json!({"mutation": what, "mode": "full"})));
+            }
+            // ε-copy
+            let pl = Placed::new(&mutated, 128, 0);
+            let r = guard(|| subj.eps(pl.bytes()).map(|o| o.val));
+            let verdict = match &r {
+                Err(p) => Err(format!("panicked: {}", p)),
+                Ok(r) => matches_expect(r, &x, v, names),
+            };
+            if let Err(e) = verdict {
+                return Err(Fail::new(&format!("header-eps:{}", expect_name(&x)), format!("{} -> expected {} from deserialize_eps, but {}", what, expect_name(&x), e)).env(json!({"mutation": what, "mode": "eps"})));
+            }
+        }
+        Ok(())
+    });
+}
+
+pub fn c11(ctx: &Ctx, subj: &dyn DynSubject, ty: &Ty, rep: &mut Report) {
+    let strat = with_entropy(strategy_for(ctx, ty, GenCfg { max_len: 6, long: false }), 64);
+    let file_budget = if ctx.tier == Tier::Thorough { 24 } else { 6 };
+    crate::runner::run_cases(ctx, subj, rep, strat, ctx.cases, &|case, log| {
+        let (v, ent) = split_entropy(case);
+        let mut ent = Ent::new(ent);
+        self_check(subj, v)?;
+        let (bytes, _) = ser_bytes(subj, v)?;
+        let enc = model_enc(ctx, subj, ty, v)?;
+        let len = bytes.len();
+        log.sample = Some(sample_json(subj, v, Some(&bytes), json!({"cuts": if len <= 600 { "every k in [0,len)".to_string() } else { "256 sampled incl. field boundaries".to_string() }})));
+        let cuts: Vec<usize> = if len <= 600 {
+            (0..len).collect()
+        } else {
+            let mut c: Vec<usize> = vec![0, 1, FIXED_HEADER - 1, FIXED_HEADER, enc.header_len - 1, enc.header_len, enc.header_len + 1, len - 1, len - 2];
+            for b in &enc.boundaries {
+                c.extend([b.saturating_sub(1), *b, b + 1]);
+            }
+            while c.len() < 256 {
+                c.push(ent.pick(len));
+            }
+            c.retain(|k| *k < len);
+            c.sort();
+            c.dedup();
+            c
+        };
+        log.nontrivial = cuts.iter().any(|k| *k >= enc.header_len);
+        for &k in &cuts {
+            log.extra_evals += 2;
+            if k >= enc.header_len {
+                log.extra_nontrivial.push(hash_sub(subj.name(), v, "c11", k as u64, 0));
+            }
+            // full copy: exactly ReadError
+            match guard(|| subj.full(&mut std::io::Cursor::new(&bytes[..k]))) {
+                Ok(Err(deser::Error::ReadError)) => {}
+                Ok(Err(e)) => return Err(Fail::new(&format!("trunc-full-error:{}", err_name(&e)), format!("prefix of {} of {} bytes: deserialize_full returned {:?}, not ReadError", k, len, e)).env(json!({"k": k}))),
+                Ok(Ok(x)) => return Err(Fail::new("trunc-full-value", format!("prefix of {} of {} bytes was deserialized (full) into {}", k, len, x.show())).env(json!({"k": k}))),
+                Err(p) => return Err(Fail::new(&format!("trunc-full-panic:{}", panic_class(&p)), format!("prefix of {} of {} bytes: deserialize_full panicked: {}", k, len, p)).env(json!({"k": k}))),
+            }
+            // ε-copy on the exact prefix
+            let pl = Placed::new(&bytes[..k], 128, 0);
+            match guard(|| subj.eps(pl.bytes()).map(|o| o.val)) {
+                Ok(Err(_)) => {}
+                Ok(Ok(x)) => return Err(Fail::new("trunc-eps-value", format!("prefix of {} of {} bytes was ε-copy deserialized into {}", k, len, x.show())).env(json!({"k": k}))),
+                Err(p) => {
+                    if !is_bounds_panic(&p) {
+                        return Err(Fail::new(&format!("trunc-eps-panic:{}", panic_class(&p)), format!("prefix of {} of {} bytes: deserialize_eps panicked with something other than a bounds check: {}", k, len, p)).env(json!({"k": k})));
+                    }
+                    log.classes.push("eps-bounds-panic".into());
+                }
+            }
+        }
+        // file-backed entry points that do not zero-extend, on a few cut points
+        let mut fcuts: Vec<usize> = vec![0, enc.header_len.min(len - 1), len - 1];
+        for _ in 0..file_budget {
+            fcuts.push(ent.pick(len));
+        }
+        fcuts.sort();
+        fcuts.dedup();
+        let path = ctx.tmp.join(format!("c11-{}-{:?}.bin", subj.index(), std::thread::current().id()).replace(['(', ')'], ""));
+        for &k in &fcuts {
+            std::fs::write(&path, &bytes[..k]).map_err(|e| Fail::new("harness:tmpfile", format!("cannot write temp file: {}", e)))?;
+            log.extra_evals += 1;
+            match guard(|| subj.load(Loader::LoadFull, &path, 0, crate::Script::Direct)) {
+                Ok(Err(e)) => match e.downcast_ref::<deser::Error>() {
+                    Some(deser::Error::ReadError) => {}
+                    other => return Err(Fail::new("trunc-loadfull-error", format!("load_full of a file cut at {} of {}: error is {:?} / {}, not ReadError", k, len, other, e)).env(json!({"k": k}))),
+                },
+                Ok(Ok(o)) => return Err(Fail::new("trunc-loadfull-value", format!("load_full of a file cut at {} of {} returned {}", k, len, o.val.show())).env(json!({"k": k}))),
+                Err(p) => return Err(Fail::new(&format!("trunc-loadfull-panic:{}", panic_class(&p)), format!("load_full of a file cut at {} of {} panicked: {}", k, len, p)).env(json!({"k": k}))),
+            }
+            if cfg!(feature = "mmap") {
+                log.extra_evals += 1;
+                match guard(|| subj.load(Loader::Mmap, &path, 0, crate::Script::Direct)) {
+                    Ok(Err(_)) => {}
+                    Ok(Ok(o)) => return Err(Fail::new("trunc-mmap-value", format!("mmap of a file cut at {} of {} returned {}", k, len, o.val.show())).env(json!({"k": k}))),
+                    Err(p) => {
+                        if !is_bounds_panic(&p) {
+                            return Err(Fail::new(&format!("trunc-mmap-panic:{}", panic_class(&p)), format!("mmap of a file cut at {} of {} panicked with something other than a bounds check: {}", k, len, p)).env(json!({"k": k})));
+                        }
+                    }
+                }
+            }
+        }
+        std::fs::remove_file(&path).ok();
+        Ok(())
+    });
+}
